@@ -185,6 +185,38 @@ def correspondences(tier, rng):
             return enc_calls(rec.value)
         return pen_res(go)
     out.append(Corr("point_to_segment", cases, impl_p2s, enc=lambda x: (enc_points(x[0]), x[1])))
+    # dropImpliedOnCurvePoints on one simple glyph: quadratic, cubic and mixed contours, midway joins, contours started anywhere
+    import array
+    from fontTools.ttLib.tables._g_l_y_f import Glyph, GlyphCoordinates, dropImpliedOnCurvePoints
+    gcases = []
+    for _ in range(n):
+        flags = []; coords = []; ends = []
+        for _c in range(rng.randint(1, 3)):
+            cub = rng.chance(45); pts = []
+            for _s in range(rng.randint(1, 4)):
+                k = rng.below(10)
+                if k < 6:
+                    noff = 2 if cub else rng.randint(1, 3)
+                    pts += [((2 * rng.randint(-20, 20), 2 * rng.randint(-20, 20)), 128 if cub else 0) for _o in range(noff)]
+                    pts.append(((rng.randint(-40, 40), rng.randint(-40, 40)), 1))
+                else: pts.append(((rng.randint(-40, 40), rng.randint(-40, 40)), 1))
+            m = len(pts)
+            for j in range(m):
+                # some on-curve points sit exactly midway between their off-curve neighbours
+                if pts[j][1] & 1 and not pts[(j - 1) % m][1] & 1 and not pts[(j + 1) % m][1] & 1 and m >= 3 and rng.chance(60):
+                    a_, b_ = pts[(j - 1) % m][0], pts[(j + 1) % m][0]
+                    pts[j] = (((a_[0] + b_[0]) // 2, (a_[1] + b_[1]) // 2), 1 | (64 if rng.chance(10) else 0))
+            r_ = rng.below(m); pts = pts[r_:] + pts[:r_]
+            coords += [p for p, _ in pts]; flags += [f for _, f in pts]; ends.append(len(flags) - 1)
+        gcases.append((flags, coords, ends))
+    def impl_drop(x):
+        flags, coords, ends = x
+        def go():
+            g = Glyph(); g.numberOfContours = len(ends); g.flags = array.array("B", flags); g.coordinates = GlyphCoordinates(coords); g.endPtsOfContours = list(ends)
+            d = dropImpliedOnCurvePoints(g)
+            return (((sorted(d), list(g.flags)), [tuple(int(v) for v in p) for p in g.coordinates]), list(g.endPtsOfContours))
+        return res(go)
+    out.append(Corr("dropImplied", gcases, impl_drop))
     return out
 
 class _Priv:
